@@ -206,37 +206,48 @@ int vp_case(Choice& c, Report& rep) {
   int sig_pos = 0;
   int prev_toc = -1; bool changed_setting = false, transition = false;
   int total_samples = 0;
-  for (int step = 0; step < nsteps; step++) {
+  // class "long steady stream" (switch derived from the case hash so that the choice layout and committed replays keep their meaning): after the
+  // generated history the last call is repeated 40-120 times with fresh signal and no further setting changes, 20 ms frames or shorter.  The
+  // generated histories end after <= 16 calls; adaptation state that needs seconds of steady input (noise-floor trackers, predictor and gain
+  // smoothing, rate-control reservoirs) is only reached this way (finding F23 sat 1-3 s into an ordinary 12 kHz speech stream).
+  const uint64_t case_hash = fnv1a(c.d, c.n);
+  const bool long_steady = kind == SINGLE && !stress_silk && (case_hash % 12) == 1;
+  const int extra_steps = long_steady ? 40 + (int)((case_hash >> 8) % 81) : 0;
+  if (long_steady) rep.label("class:long-steady-stream");
+  int last_d = 3, last_maxb = 1500, last_fmt = 0;
+  for (int step = 0; step < nsteps + extra_steps; step++) {
+    const bool cont = step >= nsteps;
     // --- optional ctl changes
-    int nch = (c.chance(90) && !stress_silk && !ms_boundary) ? c.irange(1, 3) : 0;
+    int nch = cont ? 0 : (c.chance(90) && !stress_silk && !ms_boundary) ? c.irange(1, 3) : 0;
     for (int k = 0; k < nch; k++) {
       if (kind == SINGLE) gen_ctl_change(c, rep, [&](int req, int v) { return opus_encoder_ctl(enc.p, req, v); }, ch, expert, true);
       else if (kind == MULTI) gen_ctl_change(c, rep, [&](int req, int v) { return opus_multistream_encoder_ctl(msenc.p, req, v); }, 1, expert, false);
       else gen_ctl_change(c, rep, [&](int req, int v) { return opus_projection_encoder_ctl(pjenc.p, req, v); }, 1, expert, false);
       if (step > 0) changed_setting = true;
     }
-    if (c.chance(16)) { family = c.irange(0, sig::NFAMILIES - 1); }
+    if (!cont && c.chance(16)) { family = c.irange(0, sig::NFAMILIES - 1); }
     // --- the encode call
-    int d = c.chance(150) ? 3 : c.irange(0, 8);
+    int d = cont ? (last_d > 3 ? 3 : last_d) : c.chance(150) ? 3 : c.irange(0, 8);
     if (stress_silk && kind == SINGLE) d = 4 + c.irange(0, 4);
     if (kind != SINGLE && d > 5 && c.chance(200)) d = 3;
     int fs = cu::frame_samples(Fs, d);
-    if (total_samples + fs > Fs * (stress_silk ? 6 : 3)) { d = 3; fs = cu::frame_samples(Fs, d); }   // bound the work per case
+    if (!cont && total_samples + fs > Fs * (stress_silk ? 6 : 3)) { d = 3; fs = cu::frame_samples(Fs, d); }   // bound the work per case
     total_samples += fs;
-    int maxb = gen_max_bytes(c);
+    int maxb = cont ? last_maxb : gen_max_bytes(c);
     if (kind != SINGLE && maxb < 4000 && c.chance(160)) maxb = 4000;
     // class "self-delimited length boundary": a non-final stream whose budget sits at the 251..255-byte edge of the one/two-byte length code
     if (kind != SINGLE && ms_boundary) { maxb = 248 + c.irange(0, 16) + (streams > 2 ? 254 * c.irange(0, streams - 2) : 0); rep.label("class:ms-length-boundary"); }
-    int fmt = c.irange(0, 2);                       // 0 int16, 1 int24, 2 float
+    int fmt = cont ? last_fmt : c.irange(0, 2);     // 0 int16, 1 int24, 2 float
+    if (!cont) { last_d = d; last_maxb = maxb < 40 ? 1500 : maxb; last_fmt = fmt; }
     std::vector<float> x;
     sig::generate(family, sig_seed, Fs, ch, fs, amp, x, sig_pos);
     sig_pos += fs;
     bool spiced = false;
 #ifdef FIXED_POINT
     // the fixed-point flavour is exercised with in-range input only: C02 quantifies non-finite / absurd floats over the float encoder
-    if (fmt == 2 && c.chance(24)) { (void)c.irange(0, 5); (void)c.u32(); }
+    if (!cont && fmt == 2 && c.chance(24)) { (void)c.irange(0, 5); (void)c.u32(); }
 #else
-    if (fmt == 2 && c.chance(24)) { spice_float(c, rep, x); spiced = true; }
+    if (!cont && fmt == 2 && c.chance(24)) { spice_float(c, rep, x); spiced = true; }
 #endif
     int exp_dur = expected_duration(Fs, fs, expert);
     HeapBuf<unsigned char> out(maxb);
